@@ -31,6 +31,10 @@ inductive Fail
   | emptyLeafList
   /-- `Unsupported type %d` (NativeTypeToGnmiTypedValue, default branch) -/
   | unsupportedType
+  /-- `decimal64 precision %d exceeds %d` -/
+  | decimalPrecision
+  /-- `float value NaN is not supported` -/
+  | floatNaN
   /-- a run-time panic: nil dereference, index or slice out of range, integer divide by zero,
       `big.NewFloat(NaN)` -/
   | panic
